@@ -21,11 +21,13 @@
 #include "nuked_opn2.h"
 #include "nuked/ym3438.h"
 #include <cstring>
+#include "../opnmidi_verif.hpp"
 
 NukedOPN2::NukedOPN2(OPNFamily f, bool ym3438)
     : OPNChipBaseT(f)
 {
     OPN2_SetChipType(ym3438 ? ym3438_mode_readmode : ym3438_mode_ym2612);
+    OPN_VERIF_YIELD("NukedOPN2:after-SetChipType");
     chip = new ym3438_t;
     setRate(m_rate, m_clock);
 }
